@@ -53,7 +53,7 @@ partial def parseEx (j : Json) : Option Ex :=
   match j.getObjVal? "raw" with
   | .ok v => do
     let a ← jArr? v
-    some (.raw (← jStr? (arg a 0)) (← jBool? (arg a 1)) (← jStr? (arg a 2)) (← parseFlat (arg a 3)))
+    some (.raw (← jStr? (arg a 0)).toList (← jBool? (arg a 1)) (← jStr? (arg a 2)) (← parseFlat (arg a 3)))
   | .error _ =>
     match j.getObjVal? "atom" with
     | .ok v => (parseAtom v).map Ex.atom
@@ -83,7 +83,7 @@ partial def parseForm (j : Json) : Option Form :=
     match j.getObjVal? "raw" with
     | .ok v => do
       let a ← jArr? v
-      some (.raw (← jStr? (arg a 0)) (← jBool? (arg a 1)) (← jStr? (arg a 2)) (← parseFlat (arg a 3)))
+      some (.raw (← jStr? (arg a 0)).toList (← jBool? (arg a 1)) (← jStr? (arg a 2)) (← parseFlat (arg a 3)))
     | .error _ =>
       match j.getObjVal? "col" with
       | .ok v => (parseAtom v).map Form.col
@@ -125,7 +125,7 @@ end HC02
 open HC02 in
 def handleC02 (op : String) (args : Array Json) : Option Json := do
   match op with
-  | "detector" => some (Json.bool (detector (← jStr? (arg args 1))))
+  | "detector" => some (Json.bool (detector (← jStr? (arg args 1)).toList))
   | "expr.build" => some (Json.str (textFlat (← parseEx (arg args 1)).build))
   | "where.build" =>
     let es ← (← jArr? (arg args 1)).toList.mapM parseEx
